@@ -180,43 +180,68 @@ example : (Reader.new (writeDf 3 id [⟨4, 0, [7]⟩, ⟨4, 1, []⟩] [[1, 2, 3]
 example : (Reader.new (writeDf 4 id [⟨0, 0, [1]⟩, ⟨5, 2, [-1, 2]⟩] [[9], []])).isOk = true := by decide
 
 
+/-! ## The file-backed reader (`datafile/src/file.rs`) -/
+
+/-- **A datafile embedded in a larger file.**  `datafile::Reader::new(file)` with the file
+positioned at byte `start` (`Reader::open` is `start = 0`) behaves exactly like the raw reader on
+the bytes from `start` on: same acceptance, same tables, and `read_data` addresses the same data
+region (after the repair of the seek base: position in the file = `datafile_start + seek_base +
+offset`).  Hence every theorem of this file about `Reader.new` holds for the file-backed reader,
+for every file content and every start position. -/
+theorem file_open_at_offset_eq_raw (file : List UInt8) (start : Nat) :
+    fileOpen file start = Reader.new (file.drop start) :=
+  fileOpen_eq file start
+
+/-- the `checked_sub(datafile_start).unwrap()` of `ensure_filesize` cannot fail, even for a file
+positioned beyond its end -/
+theorem file_open_never_panics (file : List UInt8) (start : Nat) (site : String) :
+    fileOpen file start ≠ .panic site := by
+  rw [fileOpen_eq]; exact reader_new_never_panics _ site
+
 /-! ## Writer / reader round trip -/
 
-/-- well-formed item list for the writer: 16-bit type ids and ids, 32-bit data words, equal type
-ids adjacent and ascending (the order `Reader::check` demands of the type table) -/
-def ItemsWellFormed (items : List Item) : Prop :=
-  (∀ it ∈ items, it.typeId < 65536 ∧ it.id < 65536 ∧ ∀ w ∈ it.data, InI32 w)
-    ∧ items.Pairwise (fun a b => a.typeId ≤ b.typeId)
-
-/-- **Full round-trip statement (not proved in full; see `roundtrip_header_partial`, the
-kernel-checked instances below and the `rt` / `openx` correspondence requests).**  For versions 3
-and 4, any well-formed item list and any data blocks whose file stays below 2 GiB, and any zlib
-pair with `inflate |x| (deflate x) = x`: the written file is accepted and returns exactly the
-items and the data that were stored. -/
-def C16_roundtrip_full : Prop :=
-  ∀ (ver : Nat) (deflate : List UInt8 → List UInt8) (inflate : Nat → List UInt8 → Option (List UInt8))
-    (items : List Item) (datas : List (List UInt8)),
-    (ver = 3 ∨ ver = 4) → ItemsWellFormed items →
-    (sizesOf ver deflate items datas).total ver ≤ 2147483647 →
-    (∀ x ∈ datas, inflate x.length (deflate x) = some x) →
+/-- **Round trip, both format versions.**  For versions 3 and 4, any well-formed item list and any
+data blocks (each at most `i32::MAX` bytes, the limit of the size table) whose file stays below
+2 GiB, and any zlib pair with `inflate |x| (deflate x) = x`: `Reader::new` accepts the written
+file, and the reader returns exactly the items (type id, id, data words, in order) and exactly
+the data blocks that were stored. -/
+theorem roundtrip (ver : Nat) (deflate : List UInt8 → List UInt8)
+    (inflate : Nat → List UInt8 → Option (List UInt8)) (items : List Item) (datas : List (List UInt8))
+    (hv : ver = 3 ∨ ver = 4) (hwf : ItemsWellFormed items)
+    (htotal : (sizesOf ver deflate items datas).total ver ≤ 2147483647)
+    (hlen : ∀ d ∈ datas, d.length ≤ 2147483647)
+    (hz : ∀ x ∈ datas, inflate x.length (deflate x) = some x) :
     ∃ r, Reader.new (writeDf ver deflate items datas) = .ok r
       ∧ r.numItems = items.length ∧ r.numData = datas.length
       ∧ (∀ k (hk : k < items.length), ∃ v, r.item k = .ok v ∧ v.typeId = items[k].typeId
             ∧ v.id = items[k].id ∧ v.data = items[k].data)
-      ∧ (∀ i (hi : i < datas.length), r.readData inflate i = .ok datas[i])
+      ∧ (∀ i (hi : i < datas.length), r.readData inflate i = .ok datas[i]) :=
+  roundtrip_writtenReader ver deflate inflate items datas
+    { version := hv
+      ids := fun it h => ⟨(hwf.1 it h).1, (hwf.1 it h).2.1⟩
+      words := fun it h => (hwf.1 it h).2.2
+      sorted := hwf.2
+      total := htotal
+      dataLen := hlen } hz
 
-/-- **Round trip, header part (partial).**  For versions 3 and 4 and *every* item/data set whose
-file stays below 2 GiB, `Header::read` on the written file succeeds with the version, counts and
-sizes of what was written, and `check_size_and_swaplen` accepts the writer's `size`/`swaplen` as
-the non-crude variant with `expected_size` = the writer's total.  (The remaining steps of
-`C16_roundtrip_full` — table reads, `check`, item and data equality — are covered by the
-instances below and by the correspondence, not by a general theorem.) -/
-theorem roundtrip_header_partial (ver : Nat) (hv : ver = 3 ∨ ver = 4)
+/-- non-vacuity of the hypotheses of `roundtrip`: a three-type item list is well-formed, and the
+identity pair satisfies the zlib hypothesis -/
+example : ItemsWellFormed [⟨0, 0, [1]⟩, ⟨4, 0, [7, -1, 2147483647]⟩, ⟨4, 65535, []⟩, ⟨65535, 2, [-2147483648]⟩]
+    ∧ (∀ x ∈ [[104, 105, 0], [], [255, 0, 1, 2, 3]], (fun (_ : Nat) (s : List UInt8) => some s) x.length (id x) = some x) := by
+  refine ⟨⟨?_, ?_⟩, fun x _ => rfl⟩
+  · simp [InI32]
+  · simp
+
+/-- The writer's header is accepted: for v ∈ {3,4} and *every* item/data set below 2 GiB,
+`Header::read` on the written file yields the version, counts and sizes of what was written and
+`check_size_and_swaplen` accepts `size`/`swaplen` as the non-crude variant with `expected_size` =
+the writer's total (the first step of `roundtrip`, without the well-formedness hypotheses). -/
+theorem writer_header_accepted' (ver : Nat) (hv : ver = 3 ∨ ver = 4)
     (deflate : List UInt8 → List UInt8) (items : List Item) (datas : List (List UInt8))
     (hmax : (sizesOf ver deflate items datas).total ver ≤ 2147483647) :
     ∃ h, Header.read (writeDf ver deflate items datas) = .ok h
       ∧ h.version = ver ∧ h.numItems = items.length ∧ h.numData = datas.length
-      ∧ h.numItemTypes = (groupTypes items 0 []).length
+      ∧ h.numItemTypes = (groupTypes items 0).length
       ∧ h.checkSizeAndSwaplen
           = .ok { expectedSize := ((sizesOf ver deflate items datas).total ver : Nat), crude := false } :=
   writer_header_accepted ver hv deflate items datas hmax
@@ -229,7 +254,7 @@ theorem words_bytes_roundtrip (ws : List Int) (h : ∀ w ∈ ws, InI32 w) (rest 
   rw [← bytesOfWords_length]
   exact readExact_append _ _
 
-/-- kernel-checked instances of `C16_roundtrip_full` (identity "compression"): three item types,
+/-- kernel-checked executable instances of `roundtrip` (identity "compression"): three item types,
 empty and non-empty items and blocks, both versions -/
 theorem roundtrip_instances :
     roundTripOk 3 id (fun _ s => some s)
